@@ -149,6 +149,14 @@ class Builder:
         inputs = [src] + self.common_hdrs + (self.repo_hdrs if needs_repo_headers else [])
         return self.add(Target(out, cmd, inputs))
 
+    def gen_recorder(self):
+        out = os.path.join(self.dir, "gen_recorder.h")
+        if out in self.targets:
+            return self.targets[out]
+        tool = os.path.join(VERIF, "tools", "gen_recorder.py")
+        dec = os.path.join(self.repo, "src", "decoder.h")
+        return self.add(Target(out, [sys.executable, tool, dec, out], [tool, dec]))
+
     def exe(self, name, objs, variant, libs=()):
         out = os.path.join(self.dir, name)
         if out in self.targets:
@@ -192,6 +200,7 @@ class Builder:
         lock_path = os.path.join(BUILD_ROOT, ".lock")
         with open(lock_path, "w") as lock:
             fcntl.flock(lock, fcntl.LOCK_EX)
+            os.makedirs(self.dir, exist_ok=True)
             order = []
             seen = set()
 
@@ -252,7 +261,7 @@ class Builder:
             f.write(t.stamp())
         return True, p.stdout
 
-    def _gc(self, keep=3):
+    def _gc(self, keep=6):
         """Keep the most recently used repo-keyed build directories only (disk)."""
         try:
             os.utime(self.dir, None)
@@ -260,6 +269,7 @@ class Builder:
                     if len(d) == 16 and os.path.isdir(os.path.join(BUILD_ROOT, d))]
             dirs.sort(key=lambda d: os.stat(d).st_mtime, reverse=True)
             for d in dirs[keep:]:
-                shutil.rmtree(d, ignore_errors=True)
+                if time.time() - os.stat(d).st_mtime > 1800:  # never remove a directory used in the last half hour
+                    shutil.rmtree(d, ignore_errors=True)
         except OSError:
             pass
